@@ -96,6 +96,9 @@ def _merge_fragments():
                 PROPS[pid]["rule"] += " || " + spec.get("rule", "")
                 PROPS[pid]["assumptions"] = PROPS[pid].get("assumptions", []) + [a for a in spec.get("assumptions", []) if a not in PROPS[pid].get("assumptions", [])]
                 PROPS[pid]["guards"] = PROPS[pid].get("guards", []) + spec.get("guards", [])
+                for k, v in spec.items():
+                    if k not in ("parts", "rule", "assumptions", "guards"):
+                        PROPS[pid].setdefault(k, v)
             else:
                 PROPS[pid] = spec
 
